@@ -1,4 +1,4 @@
-"""C12 -- closing and reopening a project loses nothing (writer/reader agreement R12.1-R12.12)."""
+"""C12 -- closing and reopening a project loses nothing (writer/reader agreement R12.1-R12.13)."""
 from __future__ import annotations
 
 import ast
@@ -138,6 +138,47 @@ def check(ctx, res) -> None:
     from .c18 import history_order_rule
 
     history_order_rule(ctx, res, "R12.12")
+    _resource_kind_rule(ctx, res)
+
+
+def _resource_kind_rule(ctx, res) -> None:
+    """R12.13: a saved CreateResource / RemoveResource carries the flag "is a folder".  The change rebuilt from it is given
+    a Folder exactly when the flag is set: every value the rebuilt resource can take comes from get_folder on the
+    flag-true side and from get_file on the flag-false side (helpers read in place)."""
+    idx = ctx.idx
+    r = idx.need_class("rope.base.change.DataToChange")
+    n = 0
+    for mname, m in sorted(r.methods.items()):
+        ps = param_names(m.node)
+        flag = next((p for p in ps if "folder" in p), None)
+        if not mname.startswith("make") or flag is None:
+            continue
+        n += 1
+        node = common.inline_private_calls(idx, m)
+        cfg = CFG(node)
+        kinds = {}
+        for nd in cfg.nodes:
+            if nd.kind != "stmt" or nd.ast is None:
+                continue
+            for c in calls_in(nd.ast):
+                if call_name(c) in ("get_folder", "get_file"):
+                    used = isinstance(nd.ast, (ast.Assign, ast.Return, ast.AnnAssign)) or any(
+                        isinstance(p_, ast.Call) and c in p_.args for p_ in ast.walk(nd.ast))
+                    pols = {pol for t, pol in cfg.guards(nd.id) if isinstance(t, ast.Name) and t.id == flag}
+                    kinds.setdefault(call_name(c), []).append((used, pols, nd))
+        bad = None
+        for getter, want in (("get_folder", True), ("get_file", False)):
+            uses = [(u, pols, nd) for u, pols, nd in kinds.get(getter, [])]
+            if not any(u for u, _, _ in uses):
+                bad = (f"the result of {getter}() is never used" if uses else f"{getter}() is never called", (uses[0][2] if uses else None))
+            for u, pols, nd in uses:
+                if u and pols != {want}:
+                    bad = (f"{getter}() supplies the resource on a path where `{flag}` is {'not tested' if not pols else 'the opposite'}", nd)
+        res.add("R12.13", f"DataToChange.{mname}|kind-follows-flag", bad is None, f"{m.unit.rel}:{(bad[1].lineno if bad and bad[1] is not None else m.node.lineno)}",
+                f"the rebuilt resource is a Folder exactly when the saved `{flag}` flag is set" if bad is None else
+                f"DataToChange.{mname}: {bad[0]}: a folder creation/removal reloaded from the saved history holds a File -- redoing it after a reopen creates "
+                "a plain file where the folder was, and the data written at the next close says `False` where `True` was saved", function=m.qualname)
+    res.floor("R12.13", "data-to-change constructors with a folder flag", n, 2)
 
 
 def _check_main(ctx, res) -> None:
